@@ -219,6 +219,7 @@ type stateJ struct {
 	DurBest  []int          `json:"durbest"`
 	Subs     subsJ          `json:"subs"`
 	Notif    int            `json:"notif"`
+	Lis      subsJ          `json:"lis"`
 	MinReorg int            `json:"minreorg"`
 }
 
@@ -372,6 +373,9 @@ func (r *replayer) compare(n *RNode, ti int, want stateJ, what string, replay an
 	}
 	if want.Pc.K == "idle" && want.MinReorg != 0 && p.MinReorg != want.MinReorg {
 		return mm("minreorg", p.MinReorg, want.MinReorg)
+	}
+	if want.Pc.K == "idle" && len(want.Lis) > 0 && !reflect.DeepEqual(map[string]int(want.Lis), p.Lis) {
+		return mm("listeners", p.Lis, want.Lis)
 	}
 	if t.Node(p.Mem).L != nil && !p.StateOK && !p.OrderDiverged {
 		return mm("tipstate", "differs from linear replay", "equal")
@@ -548,6 +552,16 @@ func (r *replayer) runPath(pi int, path []edgeJ) {
 			n = nn
 			notifBase = e.To.Notif
 			if !r.compare(n, ti, e.To, "crash", replay) {
+				return
+			}
+			i++
+		case "Sub", "Unsub":
+			if e.Act.Op == "Sub" {
+				n.Sub(e.Act.S)
+			} else {
+				n.Unsub(e.Act.S)
+			}
+			if !r.compare(n, ti, e.To, "listener", replay) {
 				return
 			}
 			i++
